@@ -29,9 +29,17 @@ Proof. exact Arch.C20Example.example_amd64_statement. Qed.
 Example cc_ok_refutes_old_aarch64 : cc_ok old_aarch64 = false.
 Proof. exact Arch.C20Example.old_aarch64_refuted. Qed.
 
-(* no false alarm, partial: for ten of the twelve clauses the executable check is implied by the clause's
-   part of the statement, so on tables that satisfy C20 these checks cannot fail; CStackBase too when the ABI's
-   first stack slot fits a usize (open: CStackStride, which also compares the dumped query results d_argtypes) *)
+(* no false alarm: completeness of the checker.  Tables of a supported architecture that satisfy the statement of
+   C20, and whose dumped query answers are the model's (queries_tie, a separate case of every run), pass every
+   clause check -- with cc_ok_sound: for tied dumps, cc_ok decides C20_statement exactly. *)
+Theorem cc_ok_complete : forall (t : dump) (a : abi),
+  abi_of (d_name t) = Some a -> C20_statement a t -> queries_tie t = true -> cc_ok t = true.
+Proof. exact Arch.CcOk.cc_ok_complete. Qed.
+Print Assumptions cc_ok_complete.
+
+(* per clause: ten of the twelve checks are implied by the clause's part of the statement alone; CStackBase when
+   the ABI's first stack slot fits a usize; CStackStride (which also compares the dumped answers d_argtypes) under
+   the tie and for word sizes that are whole bytes *)
 Theorem clause_complete_partial : forall (a : abi) (t : dump) (k : clause),
   C20_statement a t -> In k iff_clauses -> clause_ok a t k = true.
 Proof. exact Arch.CcOk.clause_complete_partial. Qed.
@@ -41,6 +49,17 @@ Theorem clause_complete_stack_base : forall (a : abi) (t : dump),
   C20_statement a t -> (a_stack_base a <= usize_max)%Z -> clause_ok a t CStackBase = true.
 Proof. exact Arch.CcOk.clause_complete_stack_base. Qed.
 Print Assumptions clause_complete_stack_base.
+
+Theorem clause_complete_stack_stride : forall (a : abi) (t : dump),
+  C20_statement a t -> queries_tie t = true ->
+  (a_word a mod 8 = 0)%Z -> (a_stack_base a + a_word a / 8 <= usize_max)%Z -> (0 <= a_word a / 8)%Z ->
+  clause_ok a t CStackStride = true.
+Proof. exact Arch.CcOk.clause_complete_stack_stride. Qed.
+Print Assumptions clause_complete_stack_stride.
+
+Example complete_example_tie :
+  abi_of (d_name example_amd64) = Some abi_amd64 /\ queries_tie example_amd64 = true.
+Proof. split; vm_compute; reflexivity. Qed.
 
 (* the hypotheses are satisfiable (System V x86-64 tables) and the ten clauses are the ones named *)
 Example complete_example :
